@@ -29,7 +29,7 @@ func checkC07(c *Ctx) {
 	// the GeoJSON half of R2: malformed documents
 	if fromFn := c.P.Func("encoding/geojson", "FromGeoJSON"); fromFn != nil && c.P.Decl(fromFn) != nil {
 		m := newClipModel(c)
-		m.it.maxDepth = 14
+		m.it.maxDepth = 48
 		anyT := types.NewInterfaceType(nil, nil)
 		anyT.Complete()
 		if gt := c.P.NamedType("encoding/geojson", "Geometry"); gt != nil && m.ptT != nil {
